@@ -458,28 +458,28 @@ theorem world_paused_transactions_move_no_position : ∀ (txs : List (List TOp))
     deposits and borrows, not reduce-only) — brackets suspend health checks, never the operational-state gate -/
 theorem world_tx_no_instruction_touches_a_paused_or_killed_bank {w w' : WState} {tx : List TOp} (h : w.runTx tx = some w') (i : Nat) :
     (∀ ai bi signer amount upTo, tx[i]? = some (.ix (.deposit ai bi signer amount upTo)) →
-      ∃ (wi : WState) (b : WBank), wi.banks[bi]? = some b ∧ Gate.OpState.ofInt b.v.opState = some .operational) ∧
+      ∃ (wi : WState) (b : WBank), w.before tx i = some wi ∧ wi.banks[bi]? = some b ∧ Gate.OpState.ofInt b.v.opState = some .operational) ∧
     (∀ ai bi signer amount, tx[i]? = some (.ix (.borrow ai bi signer amount)) →
-      ∃ (wi : WState) (b : WBank), wi.banks[bi]? = some b ∧ Gate.OpState.ofInt b.v.opState = some .operational) ∧
+      ∃ (wi : WState) (b : WBank), w.before tx i = some wi ∧ wi.banks[bi]? = some b ∧ Gate.OpState.ofInt b.v.opState = some .operational) ∧
     (∀ ai bi signer amount all vault, tx[i]? = some (.ix (.withdraw ai bi signer amount all vault)) →
-      ∃ (wi : WState) (b : WBank), wi.banks[bi]? = some b ∧
+      ∃ (wi : WState) (b : WBank), w.before tx i = some wi ∧ wi.banks[bi]? = some b ∧
         (Gate.OpState.ofInt b.v.opState = some .operational ∨ Gate.OpState.ofInt b.v.opState = some .reduceOnly)) ∧
     (∀ ai bi signer amount all, tx[i]? = some (.ix (.repay ai bi signer amount all)) →
-      ∃ (wi : WState) (b : WBank), wi.banks[bi]? = some b ∧
+      ∃ (wi : WState) (b : WBank), w.before tx i = some wi ∧ wi.banks[bi]? = some b ∧
         (Gate.OpState.ofInt b.v.opState = some .operational ∨ Gate.OpState.ofInt b.v.opState = some .reduceOnly)) := by
   refine ⟨?_, ?_, ?_, ?_⟩
   · intro ai bi signer amount upTo hi
-    obtain ⟨wi, a, b, o, _, hb, ho⟩ := tx_deposit_ran h hi
-    exact ⟨wi, b, hb, (world_bank_state_gates _).1 amount upTo o ho⟩
+    obtain ⟨wi, a, b, o, hbef, _, hb, ho⟩ := tx_deposit_ran h hi
+    exact ⟨wi, b, hbef, hb, (world_bank_state_gates _).1 amount upTo o ho⟩
   · intro ai bi signer amount hi
-    obtain ⟨wi, a, b, o, _, hb, ho⟩ := tx_borrow_ran h hi
-    exact ⟨wi, b, hb, (world_bank_state_gates _).2.1 amount o ho⟩
+    obtain ⟨wi, a, b, o, hbef, _, hb, ho⟩ := tx_borrow_ran h hi
+    exact ⟨wi, b, hbef, hb, (world_bank_state_gates _).2.1 amount o ho⟩
   · intro ai bi signer amount all vault hi
-    obtain ⟨wi, a, b, o, _, hb, ho⟩ := tx_withdraw_ran h hi
-    exact ⟨wi, b, hb, (world_bank_state_gates _).2.2.1 amount all o ho⟩
+    obtain ⟨wi, a, b, o, hbef, _, hb, ho⟩ := tx_withdraw_ran h hi
+    exact ⟨wi, b, hbef, hb, (world_bank_state_gates _).2.2.1 amount all o ho⟩
   · intro ai bi signer amount all hi
-    obtain ⟨wi, a, b, o, _, hb, ho⟩ := tx_repay_ran h hi
-    exact ⟨wi, b, hb, (world_bank_state_gates _).2.2.2 amount all o ho⟩
+    obtain ⟨wi, a, b, o, hbef, _, hb, ho⟩ := tx_repay_ran h hi
+    exact ⟨wi, b, hbef, hb, (world_bank_state_gates _).2.2.2 amount all o ho⟩
 
 /-- **world_killed_is_forever**: over every history of the world state machine a bank in the KilledByBankruptcy state stays in it
     (no instruction of the machine resets an operational state: `step_bank_frame`), so the refusals of a killed bank
